@@ -16,6 +16,8 @@ LEVEL = "proof"
 _native.install(REG)
 _native.install_funnel()
 _native.install_types(REG)
+_native.install_chain()
+_native.install_attribute()
 NATIVE = _native.NATIVE
 NATIVE_BUDGET = {"quick": 40, "thorough": 600}
 
